@@ -128,6 +128,8 @@ def show(v, depth=0):
         t = v[0]
         if t == "param":
             return v[2] or "arg%d" % v[1]
+        if t == "upvar":
+            return "^" + str(v[1])
         if t == "field":
             return "%s.%s" % (show(v[1], depth + 1), v[2])
         if t == "hload":
@@ -271,7 +273,27 @@ class Evaluator:
         self.frames = {}
 
     # ------------------------------------------------------------------ public
+    def closure_args(self, body):
+        """symbolic arguments for a closure body evaluated on its own: captured variables become named atoms"""
+        n = 0
+        ups = {}
+        for u in body.upvars:
+            pr = u["place"]["proj"]
+            fi = [p for p in pr if isinstance(p, dict) and "f" in p]
+            if not fi:
+                continue
+            k = fi[0]["i"]
+            by_ref = pr and pr[-1] == "deref" and pr.index(fi[0]) < len(pr) - 1
+            atom = ("upvar", u["name"])
+            ups[k] = ("ref", ("tmp", atom)) if by_ref else atom
+            n = max(n, k + 1)
+        env = ("closure", body.path, tuple(ups.get(i, ("upvar", "#%d" % i)) for i in range(n)))
+        a0 = ("ref", ("tmp", env)) if body.locals[1]["ty"].startswith("&") else env
+        return [a0] + [("param", i, body.locals[i + 1]["name"] or "arg%d" % i) for i in range(1, body.nargs)]
+
     def run(self, body, args=None):
+        if args is None and body.kind == "Closure" and body.nargs >= 1:
+            args = self.closure_args(body)
         self.heap = {}
         self.ver = (("v", 0), ("v", 0))   # (arena / unknown memory version, parameter-struct memory version)
         self._vcount = 0
@@ -549,18 +571,25 @@ class Evaluator:
             if r is not None:
                 return r
             return ("field", val, name)
+        def _idx():
+            if idx is not None:
+                return idx
+            try:
+                return int(name)
+            except (TypeError, ValueError):
+                return None
         if t == "tuple":
-            i = idx if idx is not None else int(name)
-            if i < len(val[1]):
+            i = _idx()
+            if i is not None and i < len(val[1]):
                 return val[1][i]
         if t == "payloads":  # result of a downcast: tuple of payload values
-            i = idx if idx is not None else int(name)
-            if i < len(val[1]):
+            i = _idx()
+            if i is not None and i < len(val[1]):
                 return val[1][i]
             return ("field", val, name)
         if t == "closure":
-            i = idx if idx is not None else int(name)
-            if i < len(val[2]):
+            i = _idx()
+            if i is not None and i < len(val[2]):
                 return val[2][i]
         if t == "ref" and val[1][0] == "heap":
             return ("field", val, name)
@@ -645,7 +674,7 @@ class Evaluator:
                     return ("named", c["path"].split("::")[-1], n)
                 return const(n)
             if c["path"]:
-                return ("constpath", c["path"])
+                return ("constpath", c["path"], c["dbg"])
             return ("constval", c["ty"], c["dbg"])
         p = place_of(op)
         if p is None:
@@ -666,14 +695,14 @@ class Evaluator:
             if pr == "deref":
                 last_deref = i
         if last_deref < 0:
-            path = self._path_of(proj)
+            path = self._path_of(proj, frame)
             if path is None:
                 frame.env[l] = ("clobbered", frame.id, l, bi, si)
                 return
             frame.env[l] = self._set_path(frame.env.get(l, ("undef", frame.id, l)), path, val)
             return
         st = self._resolve(frame, {"l": l, "proj": proj[: last_deref + 1]})
-        rest = self._path_of(proj[last_deref + 1:])
+        rest = self._path_of(proj[last_deref + 1:], frame)
         if st[0] == "val":
             loc = st[2]
             if loc is None or rest is None:
@@ -697,11 +726,17 @@ class Evaluator:
         self.heap[(base, path)] = val
         self._log(frame, bi, si, kind="store", base=base, path=path, value=val, how=how)
 
-    def _path_of(self, proj):
+    def _path_of(self, proj, frame=None):
         out = []
         for pr in proj:
             if pr == "deref":
                 return None
+            if "idx" in pr and frame is not None:
+                out.append(("idx", frame.env.get(pr["idx"], ("undef", frame.id, pr["idx"]))))
+                continue
+            if "cidx" in pr:
+                out.append(("idx", const(pr["cidx"])))
+                continue
             if "f" in pr:
                 if pr.get("adt") in self.transparent and self.transparent[pr["adt"]] == pr["f"]:
                     continue
@@ -716,6 +751,8 @@ class Evaluator:
         if not path:
             return new
         p = path[0]
+        if isinstance(p, tuple) and p[0] == "idx":
+            return ("array-update", val, p[1], new)
         if isinstance(p, tuple):  # downcast write: keep opaque
             return ("clobbered-variant", val, p[1], self._set_path(self._downcast(val, p[1]), path[1:], new))
         t = tag(val)
@@ -1167,7 +1204,14 @@ class Evaluator:
                 return ("vsum", "std::ops::ControlFlow", tuple(sorted(outv.items())))
             return ("call", "Try::branch", (x,))
         if re.search(r"FromResidual(<.*>)?>?::from_residual$", c) or c.endswith("::from_residual"):
-            return ("residual", args[0])
+            x = args[0]
+            if tag(x) == "variant" and x[2] == "Err":
+                return ("variant", "std::result::Result", "Err", x[3])
+            if tag(x) == "variant" and x[2] == "None":
+                return ("variant", "std::option::Option", "None", ())
+            if tag(x) == "payloads" and len(x[1]) == 1 and tag(x[1][0]) == "variant" and x[1][0][2] in ("Err", "None"):
+                return ("variant", x[1][0][1], x[1][0][2], x[1][0][3])
+            return ("residual", x)
         if re.search(r"(Result|Option)::<.*>::(is_ok|is_err|is_some|is_none)$", c):
             x = self._deref_val(args[0])
             if tag(x) == "variant":
@@ -1230,7 +1274,8 @@ class Evaluator:
         entry["opaque"] = True
         entry["pure"] = pure
         if pure:
-            return ("call", c, tuple(args))
+            vargs = tuple(("ref", ("tmp", self._deref_val(a))) if tag(a) == "ref" and a[1][0] == "loc" else a for a in args)
+            return ("call", c, vargs)
         # an opaque callee can only write memory reachable from what it is handed (the crate has no mutable statics);
         # through a shared reference it can only write interior-mutable memory, i.e. never a plain field of a
         # parameter struct
